@@ -1440,6 +1440,24 @@ func ruleFindSchemaID(c *Ctx) []Obligation {
 					}
 				}
 			}
+			// the step is one of all the steps: not of a list cut short at its end (`steps[:len(steps)-1]` leaves the
+			// last step, the one that names the target, unlooked at)
+			if ld, isL := stepV.(*ssa.UnOp); isL {
+				if ia, isIA := ld.X.(*ssa.IndexAddr); isIA {
+					short := false
+					operandClosure(ia.X, func(y ssa.Value) {
+						if sl, isS := y.(*ssa.Slice); isS && sl.High != nil {
+							short = true
+						}
+					})
+					if sl, isS := ia.X.(*ssa.Slice); isS && sl.High != nil {
+						short = true
+					}
+					if short {
+						return
+					}
+				}
+			}
 			// and its equal branch must lead to the nil return
 			eqLeads := false
 			for _, r := range refsOf(bo) {
